@@ -127,7 +127,8 @@ def clamps(F, R):
             if not re.search(r'(?<![A-Za-z0-9_:])q(?![A-Za-z0-9_])', d):
                 continue
             n += 1
-            bare = re.sub(r'core::f64::<impl f64>::max\(q, const effect::eq_filter::MIN_Q\)', 'QMAX', d)
+            # q passes max(<positive literal>) (MIN_Q) before it divides
+            bare = re.sub(r'core::f64::<impl f64>::max\(q, (?:const (?:[A-Za-z0-9_]+::)*MIN_Q|(?:0\.0*[1-9][0-9]*|[1-9][0-9]*(?:\.[0-9]+)?(?:e-?[0-9]+)?))\)', 'QMAX', d)
             R.check('QMAX' in bare and not re.search(r'(?<![A-Za-z0-9_:])q(?![A-Za-z0-9_])', bare), 'B.C13.clamp', 'eq:1/q#%d' % i,
                     'EQ divides by %s: q does not pass max(MIN_Q)' % d[:160], detail={'divisor': d[:160]})
     # fail closed per kind of site (the three EQ kinds may share one tan() / one divisor after a tidy-up)
